@@ -151,6 +151,12 @@ fn decorate(e: &Envelope, a: &mut Aux) -> Envelope {
         }
         3 => e.add_assertion_salted(known_values::IS_A, "Type", true),
         4 => e.add_assertion_envelope(Envelope::new_attachment("payload", "vendor", Some("c")).add_salt()).unwrap(),
+        5 if a.rng.chance(1, 2) => {
+            // well-typed but degenerate component values under the known predicates
+            let n = a.rng.below(6);
+            let short_share = SSKRShare::from_data(a.rng.bytes(n));
+            e.add_assertion(known_values::SSKR_SHARE, short_share).add_assertion(known_values::SALT, Salt::from_data(vec![])).add_assertion(known_values::SIGNED, Envelope::new("x").wrap_envelope())
+        }
         5 => e.add_assertion_salted(known_values::SALT, "not a salt", true).add_assertion(known_values::SIGNED, "not a signature").add_assertion(known_values::HAS_RECIPIENT, 5).add_assertion(known_values::SSKR_SHARE, "x"),
         6 => e.add_assertion(known_values::BODY, "b").add_assertion(known_values::RESULT, "r").add_assertion(known_values::ERROR, "e").add_assertion(known_values::CONTENT, 1).add_assertion_salted(known_values::NOTE, 3, true).add_assertion_salted(known_values::DATE, "d", true),
         7 => e.add_assertion_salted(known_values::ATTACHMENT, Envelope::new("p").wrap_envelope().add_assertion_salted(known_values::VENDOR, "v", true), true),
